@@ -7,39 +7,54 @@ and the text is parsed by the real ``beanquery.parser.parse``;  the result must 
 
 (a) Round trip  parse(print(ast)) == ast   (dataclass equality and equal repr, so that 1 / TRUE /
     Decimal('1') / Decimal('1.50') are told apart)
-    * expr-d2   the complete parent-kind x operand-slot x child-kind matrix over 35 parent kinds (Or/And
-                with 2 and 3 arguments, Not, the 6 comparisons, In, NotIn, Match, NotMatch, IsNull, IsNotNull,
-                Between, Add, Sub, Mul, Div, Mod, Neg, Attribute, Subscript, Function with 1 and 2
-                arguments, sub-select with the child as target / as WHERE) and, as children, the same kinds
-                over leaf operands plus 12 leaves (column, every literal type, list, %s, %(name)s, f(),
-                count(*)).  Cells whose AST has no text (a non-primary under Attribute / Subscript) are
-                counted, not generated.
-    * expr-d3   (thorough) parent x slot x middle x slot x bottom chains, all kinds at every level.
+    * expr-d2   the complete parent-kind x operand-slot x child-kind matrix: 30 parent kinds with 54 operand
+                slots (Or / And with 2 and 3 arguments, Not, the 6 comparisons, In, NotIn, Match, NotMatch,
+                IsNull, IsNotNull, Between, Add, Sub, Mul, Div, Mod, Neg, Attribute, Subscript, Function with 1
+                and 2 arguments, sub-select with the child as target / as WHERE) x 42 children (the same 30
+                kinds over plain columns + 12 leaves: column, integer, decimal, date, string, NULL, boolean,
+                list, %s, %(name)s, f(), count(*)) = 2 268 cells.  The 50 cells whose AST has no text (a
+                non-primary under Attribute / Subscript) are counted, not generated; the run fails as a
+                harness error if visited + inexpressible != slots x children.
+    * nary-bool same-kind / other-kind boolean children in several argument positions at once, NOT and
+                BETWEEN (which contains the word AND) inside And / Or.
+    * expr-d3   (thorough) chains parent x slot x middle x slot x bottom: all 54 x 54 slot pairs, bottom over
+                18 representatives (one per rung of the ladder and per structural class, ``D3_BOTTOM``).
     * literal   every literal spelling (text -> value table: NULL, booleans, integers with leading zeros,
                 `1.` `.5` `1.50`, dates incl. month ends and leap day, both quotings, quotes inside strings,
-                comment openers inside strings) in 4 contexts, and all lists of 1..3 literals over a 7-letter
-                literal alphabet.
-    * ident     identifier spellings: plain, with digits / underscores, every reserved word + an alphanumeric
-                suffix, every reserved word + '_' suffix (see FINDING below), in 14 syntactic positions.
+                comment openers inside strings) in 4-6 contexts, and all 399 lists of 1..3 literals over a
+                7-letter literal alphabet.
+    * ident     identifier spellings: plain, with digits / underscores, every reserved word + digit (quick) /
+                + letter, letter + reserved word, '_' + reserved word (thorough), every reserved word + '_'
+                suffix (see FINDING below), each in 15 syntactic positions.
     * select    every subset of {DISTINCT, FROM, WHERE, GROUP BY, HAVING, ORDER BY, PIVOT BY, LIMIT} (HAVING
-                only with GROUP BY) x 3 target shapes (*, one column, aliased mix); every GROUP BY / ORDER BY /
-                PIVOT BY item shape (index, column, expression, parenthesised integer constant, ASC / DESC)
-    * from      every subset of expression / OPEN ON / CLOSE [ON] / CLEAR (35 forms), `#name`, `#`, sub-select,
-                each under SELECT, BALANCES, JOURNAL, PRINT
-    * balances / journal / print   every subset of their optional parts x every FROM form
-    Prints per AST: 2 parenthesisation modes x 3 spellings (plain / spread over newlines and tabs with
-    swapped letter case / mixed case with comments between all tokens); thorough adds the `tight` spelling
-    for everything of depth <= 2 and prints depth-3 chains twice (minimal + full, spelling rotating).
+                only with GROUP BY: 192 subsets) with a rotating (quick) / every (thorough) target shape out
+                of {*, one column, aliased mix}; every GROUP BY / ORDER BY / PIVOT BY item shape (index,
+                column, expression, parenthesised integer / date / decimal constant, ASC / DESC); every FROM
+                form: the 35 subsets of expression / OPEN ON / CLOSE [ON] / CLEAR, `#name`, `#`, three
+                sub-selects, a sub-select as FROM *expression*.
+    * balances / journal / print   every subset of their optional parts x every FROM form (thorough; quick
+                thins the third summary function / the odd account strings).
+    Prints per AST (``prints_for``): both parenthesisation modes always.  A fully parenthesised text costs
+    about 3x a minimal one to parse, so: expr-d2 quick = minimal in 3 spellings (plain / spread over newlines
+    and tabs with swapped letter case / mixed case with comments between all tokens) + full in a spelling
+    rotating with the cell; thorough = minimal in 4 spellings (+ tight) + full in 2 rotating spellings;
+    statements 3 (quick) / 4 (thorough) prints with rotating spelling; expr-d3 minimal always + full for every
+    8th chain.  Over each group every (mode, spelling) combination occurs.
 
 (b) Parser = grammar.  A parser is generated from $VERIF_REPO/beanquery/parser/bql.ebnf with
     ``tatsu.to_python_sourcecode(grammar_text)`` (the default arguments reproduce the shipped parser.py
     byte for byte on the pinned tree; byte identity is *reported*, only behaviour is *checked*), loaded
-    from a temporary directory that is removed at once, and run with the same semantics class on EVERY
-    text of the corpus: all printed ASTs of (a) plus rejected / nearly valid texts -- all token sequences
-    of length <= 2 (thorough: the same) over a 50-token alphabet alone and after `SELECT a`, every
-    single-token deletion / substitution / insertion of 40 valid statements, literal edge cases.
-    Both parsers must return equal ASTs, or both raise a TatSu ParseError at the same position, or both
-    let the same foreign exception class escape (ValueError for 2020-13-45 ... is C05's business).
+    from a temporary directory that is removed at once, and run with the same semantics class on the texts
+    of the corpus: the printed ASTs of (a) plus rejected / nearly valid texts -- all token sequences of
+    length <= 2 over a 50-token alphabet alone and after `SELECT a` (5 102 texts), every single-token
+    deletion / substitution / insertion of 40 valid statements (substituted / inserted token from 4 (quick) /
+    24 (thorough) tokens), 140 literal and clause edge cases.  Both parsers must return equal ASTs, or both
+    raise a TatSu ParseError at the same position, or both let the same foreign exception class escape
+    (ValueError for 2020-13-45 ... is C05's business).
+    Every text is parsed by both parsers in the thorough tier and whenever the generated source differs
+    from parser.py.  In the quick tier, when the generated source is byte-identical to the shipped module
+    (same code, same semantics class, deterministic => same behaviour), the second parse is spent on one
+    print per AST and on every rejected / literal text only (set C06_DIFF_ALL=1 to force all).
 
 Scope / weakest readings
     * only ASTs that have a BQL text are generated (vt.unparse.NotExpressible lists the conditions);
